@@ -52,6 +52,9 @@ func genOp(t *rapid.T) arith.Case {
 	}
 	arith.FillOperands(t, &c)
 	c.Op = op
+	if arith.P0Op(op) && gen.Pick(t, 8, "p0") == 0 {
+		c.Ctx.P = 0 // rounding disabled (as in BaseContext)
+	}
 	if op == "cmp" && c.X.Form == 0 {
 		// same value region in another representation: Cmp's rescaling path
 		j := rapid.IntRange(1, 160).Draw(t, "pad")
@@ -303,8 +306,18 @@ func check(c Case, st *core.Stats) error {
 			return fmt.Errorf("%v: into a fresh destination: %s; into the operand itself: %s", m, showOut(want, wantX), showOut(gotAlias, aliasX))
 		}
 	}
+	// The result owns its storage: using it as the destination of later in-place arithmetic
+	// must not reach the operands (a shallow copy shares the coefficient's words).
+	if r := gotDirty.D; r != nil && r != x && r != y {
+		core.Guard(st, func() {
+			r.Coeff.Add(&r.Coeff, apd.NewBigInt(1))
+			r.Coeff.Sub(&r.Coeff, apd.NewBigInt(3))
+			r.Coeff.Neg(&r.Coeff)
+			r.Coeff.Lsh(&r.Coeff, 1)
+		})
+	}
 	if s := snap(x); s != xs {
-		return fmt.Errorf("%v: operand x modified: %s -> %s", m, xs, s)
+		return fmt.Errorf("%v: operand x modified (by the call, or by later in-place arithmetic on its result): %s -> %s", m, xs, s)
 	}
 	if arith.Binary(m.Op) {
 		if s := snap(y); s != ys {
